@@ -21,6 +21,9 @@ CHECKS = {
  "C12": ("fault_enumeration", "error-catalogue fault enumeration with follow-up calls under the stuck detector + reflect/unsafe mutex probe (TryLock of every reachable lock at quiescence)",
    "Every API error outcome in the catalogue (listener: address in use, Listen twice, closed, unusable address, TLS without config/certificate, broken raw peers; dialer: refused, async refused, Dial twice, closed, SP handshake failure, TLS verification failure; hook rejections; per protocol: bad options, timeouts, no peers, best effort, bad addresses, context errors, closed, zero queue length with traffic) is provoked on every transport, then every other call on the same object must return (stuck detector), the cause is corrected and the call retried on the same object, a good peer must connect and exchange, and a mutex probe checks that every lock reachable from the objects can be taken. Fault enumeration: the catalogue is a finite list that is enumerated completely.",
    "Trusted: the catalogue covers the error outcomes named in the property; the mutex probe's object-graph walk (restricted to mangos struct types). 'Every path from a lock acquisition to a return' is decided only for executed paths.", "3/C12"),
+ "C10": ("exploration", "scenario grid with stuck detector (whole-process quiescence) for every return + differential census (goroutines, socket fds, pipe ids, vt dial log) after all sockets are closed",
+   "Scenario grid over 24 protocols (with contexts), six transports, peer present/absent and in-flight activities (parked Recv/Send, outstanding request/survey, redial loop, hanging transport dial, pending redial timer, peers stalling in the SP handshake), with Close issued from one or two goroutines once the census shows the calls parked; every blocked call must return the closed error, Close must return, 12-20 later calls must return at once with closed/unsupported/queued message, closing a context/dialer/listener/pipe must leave siblings working, and afterwards no library goroutine, socket descriptor or pipe id may remain and at most one dial attempt may start after Close. Exploration: Close 'at every point' is sampled through PRNG delays and library yield points, not enumerated.",
+   "Trusted: stuck detector (a wait is only judged when every goroutine is parked and stable), goroutine-dump parser, /proc/self/fd. Timers are not observable directly; their absence is inferred from the dial log and the goroutine census.", "3/C10"),
 }
 
 NOT_YET = {}
